@@ -257,6 +257,101 @@ func streamSig(c *ctx) {
 				}
 			}
 		}
+		// ---- signatures with chosen r and s: a point R with a chosen x coordinate (so r = x has as many leading zero
+		// octets as wanted), a chosen s, a message, and the public key Q = r^-1 (sR - eG) under which (r, s) is the
+		// signature of that message. Leading zero octets in r or s occur once in 256 signatures each, two of them once in
+		// 65536: made at will here.
+		for _, a := range sigAlgs {
+			P, N, B := a.curve.Params().P, a.curve.Params().N, a.curve.Params().B
+			shapes := [][2]int{{1, 0}, {2, 0}, {0, 2}, {3, 1}, {a.size - 1, 0}, {0, a.size - 1}, {2, 2}, {0, 0}}
+			zr, zs := shapes[round%len(shapes)][0], shapes[round%len(shapes)][1]
+			for try := 0; try < 200; try++ {
+				xb := c.r.bytes(a.size - zr)
+				if zr > 0 {
+					xb[0] &= 0x7f // the octet after the zeros below 0x80: a DER INTEGER of it has no padding octet of its own
+				}
+				x := new(big.Int).SetBytes(xb)
+				if x.Sign() == 0 || x.Cmp(N) >= 0 {
+					continue
+				}
+				y2 := new(big.Int).Exp(x, big.NewInt(3), P)
+				y2.Sub(y2, new(big.Int).Mul(x, big.NewInt(3))).Add(y2, B).Mod(y2, P)
+				y := new(big.Int).ModSqrt(y2, P)
+				if y == nil {
+					continue
+				}
+				sb := c.r.bytes(a.size - zs)
+				if zs > 0 {
+					sb[0] &= 0x7f
+				}
+				sv := new(big.Int).SetBytes(sb)
+				if sv.Sign() == 0 || sv.Cmp(N) >= 0 {
+					continue
+				}
+				msg := c.r.bytes(1 + c.r.intn(40))
+				h := a.hash.New()
+				h.Write(msg)
+				digest := h.Sum(nil)
+				e := new(big.Int).SetBytes(digest) // no truncation: the hash is not longer than the group order for the three pairs
+				sRx, sRy := a.curve.ScalarMult(x, y, sv.Bytes())
+				eGx, eGy := a.curve.ScalarBaseMult(new(big.Int).Mod(e, N).Bytes())
+				var tx, ty *big.Int
+				if eGx.Sign() == 0 && eGy.Sign() == 0 {
+					tx, ty = sRx, sRy
+				} else {
+					eGy = new(big.Int).Sub(P, eGy)
+					if sRx.Cmp(eGx) == 0 {
+						continue // same or opposite points: the generic addition does not apply
+					}
+					tx, ty = a.curve.Add(sRx, sRy, eGx, eGy)
+				}
+				rinv := new(big.Int).ModInverse(x, N)
+				qx, qy := a.curve.ScalarMult(tx, ty, rinv.Bytes())
+				if qx.Sign() == 0 && qy.Sign() == 0 {
+					continue
+				}
+				pub := &goecdsa.PublicKey{Curve: a.curve, X: qx, Y: qy}
+				if !goecdsa.Verify(pub, digest, x, sv) {
+					fail("sig-harness", "constructed signature not accepted by crypto/ecdsa", fmt.Sprintf("alg=%d x=%s s=%s", a.alg, x, sv), "rejected", "accepted")
+					break
+				}
+				fixed := make([]byte, 2*a.size)
+				x.FillBytes(fixed[:a.size])
+				sv.FillBytes(fixed[a.size:])
+				line := fmt.Sprintf("ecdsa-constructed|alg=%d|Q=(%x,%x)|msg=%x|sig=%x", a.alg, qx, qy, msg, fixed)
+				pk, err := ecdsa.KeyFromPublic(pub)
+				if err != nil {
+					fail("sig-key", "KeyFromPublic refused a valid public key", line, err, "a key")
+					break
+				}
+				forms := map[string]key.Key{"from-go": pk}
+				if ck, err := ecdsa.ToCompressedKey(pk); err == nil {
+					forms["compressed"] = ck
+				}
+				for form, vk := range forms {
+					v, err := ecdsa.NewVerifier(vk)
+					c.eval()
+					c.nontriv(fmt.Sprintf("constructed|%d|zr=%d|zs=%d", a.alg, zr, zs))
+					if err != nil {
+						fail("sig-verify", "NewVerifier refused the "+form+" form of the public key", line, err, "a verifier")
+						continue
+					}
+					if err := v.Verify(msg, fixed); err != nil {
+						fail("sig-verify", fmt.Sprintf("a valid signature whose r has %d and s has %d leading zero octets does not verify under the library (%s key)", zr, zs, form), line, err, "nil (crypto/ecdsa accepts it)")
+					}
+					r3, s3, derr := ecdsa.DecodeSignature(a.curve, fixed)
+					if derr != nil || r3.Cmp(x) != 0 || s3.Cmp(sv) != 0 {
+						fail("sig-codec", "DecodeSignature does not return r and s of a fixed-length signature", line, fmt.Sprint(r3, s3, derr), "r, s")
+					}
+					m := append([]byte{}, fixed...)
+					m[len(m)-1] ^= 1
+					if v.Verify(msg, m) == nil {
+						fail("sig-verify", "a signature with one bit changed verified", line, "accepted", "an error")
+					}
+				}
+				break
+			}
+		}
 		// ---- Ed25519
 		seed := c.r.bytes(32)
 		ek, err := ed25519.KeyFromSeed(seed)
